@@ -14,6 +14,7 @@ RULE = (
     '25 rows}, float32 slice and float64-under-float32-default slice, last_dim_is_batch, seed); derivative kernels over n1!=n2, d in 1..3; '
     'distinct = distinct cell (all but seed); non-trivial iff the reference matrix is not constant (max-min > 1e-6) or the kernel is the constant '
     'kernel'
+    '; pass 5: call variants (x2=None, explicit diag=False, keyword arguments, 1-d vector inputs); `views` relation = two different views of one tensor with equal shape and storage offset'
 )
 REQUIRED = ["kernel_value", "kernel_diag", "grad_kernel_value", "path:RBFCovariance.forward", "path:MaternCovariance.forward"]
 ASSUMPTIONS = [
